@@ -82,6 +82,8 @@ void expected_intervals(int mode, bool has_iv, const uint32_t sent[3], Belief &b
 	}
 }
 
+void group_oracle_on_progress(World &W, int si);
+
 // ------------------------------------------------------------------ transport
 uint64_t next_chunk(World &W, size_t want)
 {
@@ -113,6 +115,7 @@ int tr_open_sim(void *sock)
 {
 	World &W = *g_world;
 	Peer &p = *(Peer *)sock;
+	group_oracle_on_progress(W, p.si);
 	sim_sched_point();
 	p.open_count++;
 	p.wait_returned_success = false; // a reconnect lies between the wait and the next query
@@ -218,6 +221,7 @@ int tr_recv_sim(const void *sock, void *buf, const size_t len, const time_t time
 {
 	World &W = *g_world;
 	Peer &p = *(Peer *)sock;
+	group_oracle_on_progress(W, p.si);
 	sim_sched_point();
 	sim_cancel_point();
 	unsigned k = ++p.recv_calls;
@@ -293,6 +297,7 @@ int tr_send_sim(const void *sock, const void *pdu, const size_t len, const time_
 {
 	World &W = *g_world;
 	Peer &p = *(Peer *)sock;
+	group_oracle_on_progress(W, p.si);
 	(void)timeout;
 	sim_sched_point();
 	sim_cancel_point();
@@ -389,6 +394,209 @@ void check_stopped_socket(World &W, int si, const char *when)
 	W.peers[(size_t)si].in_wait = false;
 }
 
+// C15 quantifies over sequences of socket state changes, not over interleavings of two simultaneous manager
+// callbacks (DESIGN §8 C15): the manager callback of a socket runs without voluntary task switches. It can still
+// block (rtr_stop joining another socket's thread), and other tasks run then.
+rtr_connection_state_fp g_orig_state_fp;
+void state_fp_trampoline(const struct rtr_socket *s, const enum rtr_socket_state st, void *cfg, void *grp)
+{
+	sim_nopreempt_begin();
+	g_orig_state_fp(s, st, cfg, grp);
+	sim_nopreempt_end();
+}
+void serialise_callbacks(World &W, int si)
+{
+	rtr_socket &s = W.socks[(size_t)si];
+	if (s.connection_state_fp && s.connection_state_fp != state_fp_trampoline) {
+		g_orig_state_fp = s.connection_state_fp;
+		s.connection_state_fp = state_fp_trampoline;
+	}
+}
+
+// ---- C15 group oracle
+struct LibGroups {
+	std::vector<std::pair<int, int>> v; // (preference, status) in the order the manager presents them
+};
+void lib_groups_cb(const struct rtr_mgr_group *g, void *d)
+{
+	((LibGroups *)d)->v.push_back({(int)g->preference, (int)g->status});
+}
+LibGroups lib_groups(World &W)
+{
+	LibGroups L;
+	rtr_mgr_for_each_group(W.conf, lib_groups_cb, &L);
+	return L;
+}
+GInfo *ginfo_of(World &W, int pref)
+{
+	for (auto &g : W.ginfo)
+		if (g.pref == pref && !g.removed)
+			return &g;
+	return nullptr;
+}
+void check_group_order(World &W, const char *when)
+{
+	LibGroups L = lib_groups(W);
+	W.ctx.count("group_order_audits");
+	for (size_t i = 1; i < L.v.size(); i++)
+		if (L.v[i - 1].first >= L.v[i].first)
+			W.ctx.viol("C15", "groups-not-ascending", "C15:order:not-ascending", "%s: groups are presented with preferences %d before %d", when, L.v[i - 1].first,
+				   L.v[i].first);
+	if (!L.v.empty()) {
+		struct rtr_mgr_group *first = rtr_mgr_get_first_group(W.conf);
+		int mn = L.v[0].first;
+		for (auto &x : L.v)
+			if (x.first < mn)
+				mn = x.first;
+		if ((int)first->preference != mn)
+			W.ctx.viol("C15", "first-group-not-best", "C15:order:first-group", "%s: rtr_mgr_get_first_group returns preference %u, best is %d", when,
+				   first->preference, mn);
+	}
+	size_t live = 0;
+	for (auto &g : W.ginfo)
+		live += !g.removed;
+	if (live != L.v.size())
+		W.ctx.viol("C15", "group-count", "C15:order:group-count", "%s: manager lists %zu groups, expected %zu", when, L.v.size(), live);
+}
+bool any_established(World &W)
+{
+	for (auto &g : W.ginfo)
+		if (!g.removed && g.status == RTR_MGR_ESTABLISHED)
+			return true;
+	return false;
+}
+void eval_pending(World &W, const GPending &pd)
+{
+	LibGroups L = lib_groups(W);
+	auto lib_status = [&](int pref) {
+		for (auto &x : L.v)
+			if (x.first == pref)
+				return x.second;
+		return -1;
+	};
+	W.ctx.count("group_consequence_audits");
+	if (pd.kind == 1) {
+		GInfo *me = ginfo_of(W, pd.pref);
+		if (!me || me->status != RTR_MGR_ESTABLISHED)
+			return; // lost that status again meanwhile: nothing to demand any more
+		for (auto &g : W.ginfo) {
+			if (g.removed || g.pref <= pd.pref)
+				continue;
+			bool running = false;
+			size_t recs = 0;
+			for (int si : g.socks) {
+				// (a socket whose shutdown has been announced is being stopped by some thread right now)
+				if (W.socks[(size_t)si].thread_id != 0 && !W.peers[(size_t)si].stopping)
+					running = true;
+				recs += W.model_pfx[(size_t)si].size() + W.model_spki[(size_t)si].size();
+			}
+			bool all_stopping = !g.socks.empty();
+			for (int si : g.socks)
+				if (!W.peers[(size_t)si].stopping && W.socks[(size_t)si].thread_id != 0)
+					all_stopping = false;
+			if (((lib_status(g.pref) != RTR_MGR_CLOSED || g.status != RTR_MGR_CLOSED) && !all_stopping) || running)
+				W.ctx.viol("C15", "less-preferred-not-closed", "C15:failover:less-preferred-still-open",
+					   "group %d became ESTABLISHED but less preferred group %d is not shut down (manager status %d, reported %d, thread running %d, %zu records)",
+					   pd.pref, g.pref, lib_status(g.pref), g.status, (int)running, recs);
+		}
+	} else if (pd.kind == 2) {
+		if (any_established(W))
+			return;
+		if (lib_status(pd.expect) < 0)
+			return; // removed meanwhile
+		bool started = lib_status(pd.expect) != RTR_MGR_CLOSED;
+		GInfo *e = ginfo_of(W, pd.expect);
+		if (e)
+			for (int si : e->socks)
+				if (W.socks[(size_t)si].thread_id != 0)
+					started = true;
+		if (!started)
+			W.ctx.viol("C15", "next-group-not-started", "C15:failover:best-closed-group-not-started",
+				   "group %d entered ERROR while no group was ESTABLISHED, but the most preferred closed group %d was not started", pd.pref, pd.expect);
+		else
+			W.ctx.count("probe_failover_started_next_group");
+	}
+}
+// the thread of socket si is back in its state machine (it calls its transport): whatever its earlier status reports
+// implied must be visible now
+void group_oracle_on_progress(World &W, int si)
+{
+	if (W.gpend.empty())
+		return;
+	sim_nopreempt_begin();
+	for (size_t i = 0; i < W.gpend.size();) {
+		if (W.gpend[i].sock == si && W.gpend[i].task == sim_self()) {
+			GPending pd = W.gpend[i];
+			W.gpend.erase(W.gpend.begin() + (long)i);
+			eval_pending(W, pd);
+		} else
+			i++;
+	}
+	sim_nopreempt_end();
+}
+
+void group_oracle_on_status(World &W, const struct rtr_mgr_group *group, int status, int si)
+{
+	// the thread of socket si has moved on: consequences of its earlier reports must be visible now
+	for (size_t i = 0; i < W.gpend.size();) {
+		// (reports about other groups that carry this socket come from inside its own failover action)
+		if (W.gpend[i].sock == si && W.gpend[i].pref == (int)group->preference && W.gpend[i].task == sim_self()) {
+			GPending pd = W.gpend[i];
+			W.gpend.erase(W.gpend.begin() + (long)i);
+			eval_pending(W, pd);
+		} else
+			i++;
+	}
+	GInfo *g = ginfo_of(W, (int)group->preference);
+	if (!g)
+		return;
+	int prev = g->status;
+	g->status = status;
+	if (status == RTR_MGR_ESTABLISHED && prev != RTR_MGR_ESTABLISHED) {
+		W.ctx.count("probe_group_established");
+		for (int s : g->socks) {
+			const Belief &b = W.belief[(size_t)s];
+			if (!b.has_success || W.peers[(size_t)s].stopping)
+				W.ctx.viol("C15", "established-without-sync", "C15:status:established-without-all-sockets-synced",
+					   "group %d is reported ESTABLISHED although its socket %d holds no synchronised data", g->pref, s);
+		}
+		if (si >= 0)
+			W.gpend.push_back({1, sim_self(), si, g->pref, 0});
+	}
+	if (status == RTR_MGR_CLOSED) {
+		// its socket threads are gone: they cannot complete what their last reports implied
+		for (size_t i = 0; i < W.gpend.size();)
+			if (W.gpend[i].pref == g->pref)
+				W.gpend.erase(W.gpend.begin() + (long)i);
+			else
+				i++;
+	}
+	if (status == RTR_MGR_CLOSED && prev != RTR_MGR_CLOSED && !W.oper_busy) {
+		// shut down by failover: only on behalf of a strictly more preferred ESTABLISHED group
+		bool ok = false;
+		for (auto &o : W.ginfo)
+			if (!o.removed && o.pref < g->pref && o.status == RTR_MGR_ESTABLISHED)
+				ok = true;
+		W.ctx.count("probe_group_closed_by_failover");
+		if (!ok)
+			W.ctx.viol("C15", "closed-without-better-group", "C15:failover:closed-on-behalf-of-less-preferred",
+				   "group %d was shut down although no more preferred group is ESTABLISHED", g->pref);
+	}
+	if (status == RTR_MGR_ERROR && si >= 0 && !any_established(W)) {
+		// the group list and "still closed" are taken from the manager itself (configuration facts): an operator call
+		// may be adding or removing a group at this very moment
+		int best = -1;
+		LibGroups L = lib_groups(W);
+		for (auto &o : L.v)
+			if (o.first != g->pref && o.second == RTR_MGR_CLOSED && (best < 0 || o.first < best))
+				best = o.first;
+		// only a real socket error triggers the start (not CONNECTING reports of a group already in ERROR)
+		int st = (int)W.socks[(size_t)si].state;
+		if (best >= 0 && (st == RTR_ERROR_FATAL || st == RTR_ERROR_TRANSPORT || st == RTR_ERROR_NO_DATA_AVAIL))
+			W.gpend.push_back({2, sim_self(), si, g->pref, best});
+	}
+}
+
 void status_cb(const struct rtr_mgr_group *group, enum rtr_mgr_status status, const struct rtr_socket *sock, void *)
 {
 	World *W = g_world;
@@ -404,6 +612,9 @@ void status_cb(const struct rtr_mgr_group *group, enum rtr_mgr_status status, co
 	digest(W->dig_states, ((uint64_t)(si + 1) << 8) | (uint64_t)(st + 1));
 	if (si >= 0 && st == RTR_SHUTDOWN)
 		W->peers[(size_t)si].stopping = true;
+	sim_nopreempt_begin();
+	group_oracle_on_status(*W, group, (int)status, si);
+	sim_nopreempt_end();
 	if (si >= 0)
 		W->peers[(size_t)si].state_cb_last = st;
 	if (status == RTR_MGR_CLOSED) {
@@ -1060,19 +1271,117 @@ void run_world(const J &plan, RunCtx &ctx)
 		b.expire = expire;
 	}
 	// groups
+	// (shrunk plans are normalised: a socket belongs to one group, preferences are distinct, no empty group)
 	const J &jg = plan["groups"];
-	std::vector<rtr_mgr_group> groups(jg.size());
-	std::vector<std::vector<rtr_socket *>> gsocks(jg.size());
-	for (size_t g = 0; g < jg.size(); g++) {
-		const J &js = jg[g]["sockets"];
-		for (size_t k = 0; k < js.size(); k++)
-			gsocks[g].push_back(&W.socks[(size_t)((uint64_t)js[k].num() % (uint64_t)W.n)]);
-		groups[g].sockets = gsocks[g].data();
-		groups[g].sockets_len = (unsigned)gsocks[g].size();
-		groups[g].preference = (uint8_t)jg[g].geti("pref", (int64_t)g + 1);
-		groups[g].status = RTR_MGR_CLOSED;
+	std::vector<rtr_mgr_group> groups;
+	std::vector<std::vector<rtr_socket *>> gsocks;
+	gsocks.reserve(jg.size() + 1);
+	{
+		std::set<int> used_s, used_p;
+		for (size_t g = 0; g < jg.size(); g++) {
+			std::vector<rtr_socket *> ss;
+			const J &js = jg[g]["sockets"];
+			for (size_t k = 0; k < js.size(); k++) {
+				int si = (int)((uint64_t)js[k].num() % (uint64_t)W.n);
+				if (used_s.insert(si).second)
+					ss.push_back(&W.socks[(size_t)si]);
+			}
+			int pref = (int)(jg[g].geti("pref", (int64_t)g + 1) & 255);
+			if (ss.empty() || !used_p.insert(pref).second)
+				continue;
+			gsocks.push_back(ss);
+			rtr_mgr_group gr;
+			memset(&gr, 0, sizeof(gr));
+			gr.sockets = gsocks.back().data();
+			gr.sockets_len = (unsigned)gsocks.back().size();
+			gr.preference = (uint8_t)pref;
+			gr.status = RTR_MGR_CLOSED;
+			groups.push_back(gr);
+		}
+	}
+	if (groups.empty()) {
+		ctx.count("plan_without_groups");
+		g_world = nullptr;
+		return;
 	}
 	bool cbs = cfg.geti("callbacks", 1) != 0;
+	// ---- C15 / C17: configurations that initialisation must reject (fresh structures each time)
+	const J &cases = plan["init_cases"];
+	for (size_t ci = 0; ci < cases.size(); ci++) {
+		const J &cs = cases[ci];
+		std::string kind = cs.gets("kind");
+		std::vector<rtr_socket> ts(2);
+		std::vector<tr_socket> tt(2);
+		memset(ts.data(), 0, sizeof(rtr_socket) * 2);
+		Peer dummy;
+		for (int k = 0; k < 2; k++) {
+			tt[(size_t)k].socket = &dummy;
+			tt[(size_t)k].free_fp = tr_free_sim;
+			ts[(size_t)k].tr_socket = &tt[(size_t)k];
+		}
+		rtr_socket *sp[2] = {&ts[0], &ts[1]};
+		rtr_mgr_group gg[3];
+		memset(gg, 0, sizeof(gg));
+		unsigned ng = 2;
+		gg[0].sockets = &sp[0];
+		gg[0].sockets_len = 1;
+		gg[0].preference = (uint8_t)cs.geti("p0", 1);
+		gg[1].sockets = &sp[1];
+		gg[1].sockets_len = 1;
+		gg[1].preference = (uint8_t)cs.geti("p1", 2);
+		unsigned r = refresh, e = expire, t = retry;
+		bool must_reject = true;
+		if (kind == "empty")
+			ng = 0;
+		else if (kind == "nosock")
+			gg[(size_t)(cs.geti("which", 0) & 1)].sockets_len = 0;
+		else if (kind == "duppref")
+			gg[1].preference = gg[0].preference;
+		else if (kind == "iv") {
+			r = (unsigned)cs.geti("refresh", refresh);
+			e = (unsigned)cs.geti("expire", expire);
+			t = (unsigned)cs.geti("retry", retry);
+			must_reject = !(r >= 1 && r <= 86400 && e >= 600 && e <= 172800 && t >= 1 && t <= 7200);
+		} else if (kind == "one") {
+			ng = 1;
+			must_reject = false;
+		}
+		rtr_mgr_config *c2 = (rtr_mgr_config *)(uintptr_t)0x1;
+		uint64_t ff = simalloc_foreign_free(), lf = simalloc_libc_free_of_sim_block(), live = simalloc_live_blocks();
+		int rc2 = rtr_mgr_init(&c2, gg, ng, r, e, t, NULL, NULL, NULL, NULL);
+		ctx.count("init_cases");
+		const char *prop = kind == "iv" ? "C17" : "C15";
+		if (must_reject) {
+			if (rc2 == RTR_SUCCESS || c2 != NULL)
+				ctx.viol(prop, "init-accepts-invalid", std::string(prop) + ":init:accepted:" + kind, "rtr_mgr_init accepted an invalid configuration (%s: %s) rc=%d",
+					 kind.c_str(), cs.dump().c_str(), rc2);
+			if (simalloc_foreign_free() != ff || simalloc_libc_free_of_sim_block() != lf)
+				ctx.viol(prop, "init-error-path-bad-free", std::string(prop) + ":init:error-path-frees-uninitialised-pointer:" + kind,
+					 "rejecting configuration '%s' released a pointer that was never allocated", kind.c_str());
+			if (simalloc_live_blocks() != live)
+				ctx.viol(prop, "init-error-path-leak", std::string(prop) + ":init:error-path-leak:" + kind, "rejecting configuration '%s' leaked %lld blocks",
+					 kind.c_str(), (long long)simalloc_live_blocks() - (long long)live);
+			if (rc2 == RTR_SUCCESS && c2)
+				rtr_mgr_free(c2);
+		} else {
+			if (rc2 != RTR_SUCCESS || !c2)
+				ctx.viol(prop, "init-rejects-valid", std::string(prop) + ":init:rejected-valid:" + kind, "rtr_mgr_init rejected a valid configuration (%s) rc=%d",
+					 cs.dump().c_str(), rc2);
+			else {
+				if (ts[0].refresh_interval != r || ts[0].expire_interval != e || ts[0].retry_interval != t)
+					ctx.viol("C17", "init-intervals", "C17:init:intervals-not-stored", "rtr_mgr_init(%u,%u,%u) left the socket with %u/%u/%u", r, e, t,
+						 ts[0].refresh_interval, ts[0].expire_interval, ts[0].retry_interval);
+				rtr_mgr_free(c2);
+			}
+		}
+	}
+	for (size_t g = 0; g < groups.size(); g++) {
+		GInfo gi;
+		gi.pref = groups[g].preference;
+		for (auto *s : gsocks[g])
+			gi.socks.push_back(W.index_of(s));
+		W.ginfo.push_back(gi);
+	}
 	int rc = rtr_mgr_init(&W.conf, groups.data(), (unsigned)groups.size(), refresh, expire, retry, cbs ? pfx_cb : NULL, cbs ? spki_cb : NULL, status_cb, NULL);
 	if (rc != RTR_SUCCESS || !W.conf) {
 		ctx.count("mgr_init_failed");
@@ -1082,7 +1391,14 @@ void run_world(const J &plan, RunCtx &ctx)
 	W.iv_mode = (int)cfg.geti("iv_mode", RTR_INTERVAL_MODE_DEFAULT_MIN_MAX);
 	for (int i = 0; i < W.n; i++)
 		rtr_set_interval_mode(&W.socks[(size_t)i], (enum rtr_interval_mode)W.iv_mode);
+	if (plan.geti("serialise_callbacks", W.focus == "C15"))
+		for (int i = 0; i < W.n; i++)
+			serialise_callbacks(W, i);
+	check_group_order(W, "after init");
 	rtr_mgr_start(W.conf);
+	// storage for groups added at run time (the manager keeps the sockets pointer)
+	std::vector<std::vector<rtr_socket *>> added_socks;
+	added_socks.reserve(16);
 	// operator ops and end condition
 	const J &oper = plan["oper"];
 	uint64_t t0 = sim_now_ns();
@@ -1112,7 +1428,12 @@ void run_world(const J &plan, RunCtx &ctx)
 				ctx.count("oper_" + k);
 				sim_log(EV_USER, 7, oi);
 				if (k == "stop") {
+					W.oper_busy = true;
 					rtr_mgr_stop(W.conf);
+					W.oper_busy = false;
+					for (auto &g : W.ginfo)
+						g.status = RTR_MGR_CLOSED;
+					W.gpend.clear();
 					for (int i = 0; i < W.n; i++)
 						if (W.peers[(size_t)i].started)
 							check_stopped_socket(W, i, "mgr-stop");
@@ -1123,6 +1444,85 @@ void run_world(const J &plan, RunCtx &ctx)
 						rtr_mgr_start(W.conf);
 						stopped = false;
 					}
+				} else if (k == "addgroup") {
+					int pref = (int)(op.geti("pref") & 255);
+					std::vector<rtr_socket *> ss;
+					std::vector<int> idx;
+					const J &js = op["sockets"];
+					bool usable = js.size() > 0;
+					for (size_t q = 0; q < js.size(); q++) {
+						int si = (int)((uint64_t)js[q].num() % (uint64_t)W.n);
+						for (auto &g : W.ginfo)
+							for (int u : g.socks)
+								if (u == si)
+									usable = false; // a socket belongs to one group only (also after removal: its transport is freed)
+						ss.push_back(&W.socks[(size_t)si]);
+						idx.push_back(si);
+					}
+					if (usable && added_socks.size() < 16) {
+						added_socks.push_back(ss);
+						rtr_mgr_group ng;
+						memset(&ng, 0, sizeof(ng));
+						ng.sockets = added_socks.back().data();
+						ng.sockets_len = (unsigned)ss.size();
+						ng.preference = (uint8_t)pref;
+						bool dup = ginfo_of(W, pref) != nullptr;
+						W.oper_busy = true;
+						int r2 = rtr_mgr_add_group(W.conf, &ng);
+						W.oper_busy = false;
+						if (dup && r2 == RTR_SUCCESS)
+							ctx.viol("C15", "add-accepts-duplicate-preference", "C15:add:duplicate-preference-accepted",
+								 "rtr_mgr_add_group accepted preference %d which is already in use", pref);
+						if (!dup && r2 != RTR_SUCCESS)
+							ctx.count("note_add_group_failed_for_other_reason"); // e.g. intervals inherited from a socket are out of range
+						if (r2 == RTR_SUCCESS && !dup) {
+							GInfo gi;
+							gi.pref = pref;
+							gi.socks = idx;
+							W.ginfo.push_back(gi);
+							for (int si : idx) {
+								Belief &b = W.belief[(size_t)si];
+								b.refresh = W.socks[(size_t)si].refresh_interval;
+								b.retry = W.socks[(size_t)si].retry_interval;
+								b.expire = W.socks[(size_t)si].expire_interval;
+								rtr_set_interval_mode(&W.socks[(size_t)si], (enum rtr_interval_mode)W.iv_mode);
+								if (plan.geti("serialise_callbacks", W.focus == "C15"))
+									serialise_callbacks(W, si);
+							}
+							ctx.count("probe_group_added");
+						} else
+							ctx.count("probe_group_add_rejected");
+						check_group_order(W, "after add_group");
+					}
+				} else if (k == "rmgroup") {
+					int pref = (int)(op.geti("pref") & 255);
+					GInfo *g = ginfo_of(W, pref);
+					size_t live = 0;
+					for (auto &x : W.ginfo)
+						live += !x.removed;
+					W.oper_busy = true;
+					int r2 = rtr_mgr_remove_group(W.conf, (unsigned)pref);
+					W.oper_busy = false;
+					if (live <= 1 && r2 == RTR_SUCCESS)
+						ctx.viol("C15", "last-group-removed", "C15:remove:last-group-removed", "rtr_mgr_remove_group removed the last remaining group (%d)", pref);
+					else if (live > 1 && g && r2 != RTR_SUCCESS)
+						ctx.count("note_remove_group_failed_for_other_reason");
+					else if (!g && r2 == RTR_SUCCESS)
+						ctx.viol("C15", "remove-unknown", "C15:remove:unknown-preference-accepted", "rtr_mgr_remove_group(%d) succeeded for an unknown preference", pref);
+					if (r2 == RTR_SUCCESS && g) {
+						for (int si : g->socks)
+							if (W.peers[(size_t)si].started)
+								check_stopped_socket(W, si, "group-removed");
+						g->removed = true;
+						ctx.count("probe_group_removed");
+						// whenever the best group is closed it has to be started
+						LibGroups L = lib_groups(W);
+						if (!L.v.empty() && L.v[0].second == RTR_MGR_CLOSED && !stopped)
+							ctx.viol("C15", "best-group-not-started-after-remove", "C15:remove:best-group-left-closed",
+								 "after removing group %d the most preferred group %d is still closed", pref, L.v[0].first);
+					} else
+						ctx.count("probe_group_remove_rejected");
+					check_group_order(W, "after remove_group");
 				} else if (k == "ivmode") {
 					W.iv_mode = (int)op.geti("mode", 2) & 3;
 					for (int i = 0; i < W.n; i++)
@@ -1192,7 +1592,10 @@ void run_world(const J &plan, RunCtx &ctx)
 	ctx.extra["digests"]["tables"] = hex64(table_digest(W));
 	ctx.extra["digests"]["states"] = hex64(W.dig_states);
 	ctx.extra["digests"]["sent"] = hex64(W.dig_sent);
+	ctx.count("group_consequences_unfinished_at_end", W.gpend.size()); // their threads are still inside the failover action
+	W.gpend.clear();
 	if (!stopped) {
+		W.oper_busy = true;
 		rtr_mgr_stop(W.conf);
 		for (int i = 0; i < W.n; i++)
 			if (W.peers[(size_t)i].started)
